@@ -25,6 +25,10 @@ scalars = st.one_of(
     st.builds(bytearray, st.binary(max_size=33)), st.builds(lambda d, s: timedelta(days=d, seconds=s), st.integers(-400, 400),
                                                            st.integers(0, 86399)),
     st.sampled_from([Opaque(n) for n in OPAQUES]),
+    # containers / byte strings whose len() equals a grammar length (40, 64, 128)
+    st.sampled_from([40, 64, 128]).flatmap(lambda n: st.sampled_from([["a"] * n, ("a",) * n, b"a" * n, bytearray(b"a" * n),
+                                                                      {"k%03d" % i: 0 for i in range(n)}, frozenset(range(n))])),
+    st.sampled_from([10 ** 400, -(10 ** 400), 10 ** 4000]),
 )
 
 python_values = st.recursive(
